@@ -52,6 +52,11 @@ def gen_cases(tier, seed):
         else:
             d["steps"] = r.randint(0, 5)
         out.append(d)
+    for i in range(n // 12):
+        s = env.seed_for(seed, ID, tier, "faulty", i)
+        r = random.Random(env.seed_for(s, "descriptor"))
+        out.append({"seed": s, "mode": "faulty_member", "members": r.choice([2, 2, 3, 4]), "bundled": r.random() < 0.4, "compose": r.choice(["tuple", "flat", "nested"]),
+                    "W": 1, "n": 2, "sched": "default"})
     return out
 
 
@@ -115,6 +120,13 @@ def make_progress(desc, tmpdir=None):
 
 
 def run_case(desc):
+    if desc["mode"] == "faulty_member":
+        bad, info = recobserver.run_with_faulty_member(desc["seed"], desc["members"], desc["bundled"], desc["compose"])
+        res = {"status": "ok", "counters": {"faulty_member_runs": 1, f"faulty_member_{info['where']}": 1}, "nontrivial": True,
+               "sig": f"faulty|{info['where']}|{info['faulty_member']}|{desc['members']}|{desc['bundled']}|{desc['compose']}"}
+        if bad:
+            res.update(status="violation", detail=f"[composite with a failing member: {info}] {bad}", mechanism="observer-trace", witness=info)
+        return res
     recs, progress = make_progress(desc)
     extra_calls = []
     if desc["mode"] == "plain":
@@ -279,6 +291,8 @@ def finalize(agg, tier):
         reasons.append("fewer than 50 traces with failures")
     if c["composite_member_comparisons"] < 50:
         reasons.append("fewer than 50 composite member comparisons")
+    if c["faulty_member_runs"] < 20:
+        reasons.append("fewer than 20 runs with a failing composite member")
     if c["stale_total_scopes_checked"] < 100:
         reasons.append("too few stale-section totals checked")
     return reasons
